@@ -73,14 +73,21 @@ def enc_otree(d: bytes, o) -> str:
             f'{enc_expect(d, o["hdr"])} {enc_expect(d, o["body"])} {subs})')
 
 
+def enc_z(n: int) -> str:
+    if n < 0:
+        return f'({n})%Z'
+    assert n < 65536
+    return f'(zo {_BX[n >> 8]} {_BX[n & 255]})'
+
+
 def enc_bs(b) -> str:
     if b[0] == 'multi':
         subs = '(@nil bstruct)' if not b[1] else '[' + ';'.join(enc_bs(s) for s in b[1]) + ']'
         return f'(BsMulti {subs})'
     if b[0] == 'msg':
-        return f'(BsMsg {enc_off(b[1])} {enc_off(b[2])} {enc_bs(b[3])})'
+        return f'(BsMsg {enc_off(b[1])} {enc_z(b[2])} {enc_bs(b[3])})'
     if b[0] == 'text':
-        return f'(BsText {enc_off(b[1])} {enc_off(b[2])})'
+        return f'(BsText {enc_off(b[1])} {enc_z(b[2])})'
     return f'(BsOther {enc_off(b[1])})'
 
 
@@ -491,15 +498,21 @@ def bs_of_sexp(x):
         # ("mixed" ...) : a multipart with no parts loses its leading lists
         return ('multi', [])
 
-    def num(v):
-        if isinstance(v, tuple) and v[0] == 'atom' and v[1].isdigit():
-            return int(v[1])
+    def num(v, signed=False):
+        if isinstance(v, tuple) and v[0] == 'atom':
+            if v[1].isdigit():
+                return int(v[1])
+            # pymap prints the line count of a part without lines as -1 (not
+            # an IMAP number: a matter for C07); line counts are not a clause
+            # of C03, so the reader lets it pass and the model must agree
+            if signed and v[1][:1] == b'-' and v[1][1:].isdigit():
+                return int(v[1])
         raise RespError(f'number expected in body structure: {v!r}')
     size = num(x[6])
     if mt == b'message' and st == b'rfc822':
-        return ('msg', size, num(x[9]), bs_of_sexp(x[8]))
+        return ('msg', size, num(x[9], True), bs_of_sexp(x[8]))
     if mt == b'text':
-        return ('text', size, num(x[7]))
+        return ('text', size, num(x[7], True))
     return ('other', size)
 
 
@@ -557,3 +570,236 @@ def msg_on_path(bs, path) -> bool:
         if p == path:
             return below
     return False
+
+
+# ============================================================ pure monitor
+def pure_monitor(ctx, d: bytes, obs, rng, *, backend='pure') -> dict:
+    """The clauses of the statement on the objects FETCH works with
+    (MessageContent + BaseLoadedMessage + _get_data), for any size of d.
+    Returns the observations reused by the correspondence."""
+    content = obs['content']
+    loaded = loaded_of(content)
+    rep = {'data': d.hex() if len(d) <= 4096 else d[:4096].hex() + '...', 'len': len(d),
+           'level': 'direct'}
+    full = direct_query(loaded, 'QBody', [], None)
+    if full != d:
+        ctx.failure('body_verbatim', f'bytes(MessageContent.parse(d)) differs from d '
+                    f'({len(full)} vs {len(d)} octets)', rep,
+                    {'kind': 'content_not_verbatim', 'level': 'direct'})
+    size = loaded.get_size()
+    if size != len(d):
+        ctx.failure('rfc822_size', f'get_size() = {size}, len(d) = {len(d)}', rep,
+                    {'kind': 'size_wrong', 'level': 'direct'})
+    hdr = direct_query(loaded, 'QHeader', [], None)
+    txt = direct_query(loaded, 'QText', [], None)
+    if hdr + txt != d:
+        ctx.failure('header_text_split', f'HEADER ({len(hdr)}) ++ TEXT ({len(txt)}) differs '
+                    f'from d ({len(d)})', rep, {'kind': 'split_wrong', 'level': 'direct'})
+    partials = gen_partials(rng, len(d), 4)
+    pres = []
+    for o, n in partials:
+        got = direct_query(loaded, 'QBody', [], (o, n))
+        pres.append(('QBody', [], (o, n), got))
+        if got != d[o:o + n]:
+            ctx.failure('partial_slice', f'BODY[]<{o}.{n}> returned {len(got)} octets, '
+                        f'expected {len(d[o:o + n])}', dict(rep, partial=[o, n]),
+                        {'kind': 'partial_wrong', 'level': 'direct'})
+    bs = None
+    try:
+        bs = observe_bs(loaded.get_body_structure())
+    except Exception as exc:   # stdlib email refusing a header: not this property
+        ctx.extra.setdefault('bodystructure_raised', []).append(
+            {'exc': repr(exc)[:120], 'data': d[:200].hex()})
+    if bs is not None:
+        part_octets_monitor(ctx, bs, rep,
+                            lambda p: direct_query(loaded, 'QBody', p, None),
+                            lambda p: direct_query(loaded, 'QMime', p, None), 'direct')
+    return {'loaded': loaded, 'full': full, 'size': size, 'hdr': hdr, 'txt': txt,
+            'partials': pres, 'bs': bs}
+
+
+def part_octets_monitor(ctx, bs, rep, get_body, get_mime, level) -> None:
+    for p, n in rfc_parts(bs):
+        body = get_body(p)
+        if n == len(body):
+            continue
+        mime = get_mime(p)
+        if msg_on_path(bs, p):
+            kind = 'rfc822_part_numbering'
+        elif mime and n == len(mime) + len(body):
+            kind = 'size_includes_header'
+        else:
+            kind = 'other'
+        ctx.failure('part_octets',
+                    f'part {".".join(map(str, p))}: {n} octets announced, BODY[part] has '
+                    f'{len(body)} (BODY[part.MIME] has {len(mime)})',
+                    dict(rep, part=p, announced=n, body_len=len(body), mime_len=len(mime)),
+                    {'kind': kind, 'level': level})
+
+
+# ======================================================== end-to-end driver
+def stdlib_roundtrip(d: bytes) -> bytes:
+    """What stdlib mailbox alone makes of d: Maildir.add(MaildirMessage(d))
+    then bytes(get_message(key)) — the measured value of the model's [ser]
+    hypothesis (no pymap code involved)."""
+    import mailbox
+    import shutil
+    import tempfile
+    tmp = tempfile.mkdtemp(prefix='pymapverif-ser-')
+    try:
+        md = mailbox.Maildir(tmp + '/m', create=True)
+        key = md.add(mailbox.MaildirMessage(d))
+        return bytes(md.get_message(key))
+    finally:
+        shutil.rmtree(tmp, ignore_errors=True)
+
+
+class E2E:
+    """One logged-in connection with INBOX selected and two destination
+    mailboxes; `roundtrip(d)` appends d and returns everything fetched from
+    the original, the COPY and the MOVEd message."""
+
+    def __init__(self, backend: str, layout: str = '++') -> None:
+        self.backend = backend
+        self.layout = layout
+        self.env = None
+        self.conn = None
+        self.tag = 0
+        self.copy_ok = True
+
+    async def start(self):
+        from .pymap_env import DictEnv, MaildirEnv
+        if self.backend == 'dict':
+            self.env = await DictEnv().start()
+        else:
+            self.env = await MaildirEnv(self.layout).start()
+        self.conn = await self.env.login()
+        for box in (b'CpDst', b'MvDst'):
+            r = await self.cmd(b'CREATE ' + box)
+            assert b' OK' in r, r
+        r = await self.cmd(b'SELECT INBOX')
+        assert b' OK' in r, r
+        # empty the demo data so that sequence numbers stay small
+        await self.cmd(b'STORE 1:* +FLAGS.SILENT (\\Deleted)')
+        await self.cmd(b'EXPUNGE')
+        return self
+
+    def close(self):
+        if self.env is not None:
+            self.env.close()
+
+    async def cmd(self, line: bytes) -> bytes:
+        self.tag += 1
+        tag = b't%d' % self.tag
+        r = await self.conn.cmd(tag + b' ' + line + b'\r\n')
+        self.last_tag = tag
+        return r
+
+    @staticmethod
+    def tagged_ok(resp: bytes, tag: bytes) -> bool:
+        return (b'\r\n' + tag + b' OK') in (b'\r\n' + resp)
+
+    async def fetch_items(self, seq: bytes, attrs: list[bytes]):
+        """FETCH -> dict name -> value for message `seq` ('*'), or a string
+        describing why the response could not be read."""
+        r = await self.cmd(b'FETCH ' + seq + b' (' + b' '.join(attrs) + b')')
+        if self.conn.closed or self.conn.exc is not None:
+            return f'connection lost: {self.conn.exc!r} {r[-200:]!r}', r
+        try:
+            fetches, rest = parse_fetch(r)
+        except RespError as exc:
+            return f'unreadable FETCH response: {exc}', r
+        if not self.tagged_ok(rest, self.last_tag) and not rest.startswith(self.last_tag + b' OK'):
+            return f'FETCH not OK: {rest[:200]!r}', r
+        if not fetches:
+            return 'no FETCH data', r
+        items = {}
+        for _seq, it in fetches:
+            items.update(it)
+        return items, r
+
+    async def fetch_all(self, seq: bytes, parts, partials):
+        """the data items of the statement for one message"""
+        attrs = [b'RFC822.SIZE', b'RFC822', b'BODY.PEEK[]', b'BODY.PEEK[HEADER]',
+                 b'BODY.PEEK[TEXT]', b'RFC822.HEADER', b'RFC822.TEXT']
+        for o, n in partials:
+            attrs.append(b'BODY.PEEK[]<%d.%d>' % (o, n))
+        for p in parts:
+            ps = b'.'.join(b'%d' % i for i in p)
+            attrs.append(b'BODY.PEEK[' + ps + b']')
+            attrs.append(b'BODY.PEEK[' + ps + b'.MIME]')
+        items, raw = await self.fetch_all_split(seq, attrs)
+        return items, raw
+
+    async def fetch_all_split(self, seq: bytes, attrs):
+        items, raw = await self.fetch_items(seq, attrs)
+        return items, raw
+
+    async def structure(self, seq: bytes):
+        items, raw = await self.fetch_items(seq, [b'BODYSTRUCTURE', b'BODY'])
+        return items, raw
+
+    async def append(self, d: bytes) -> bytes:
+        return await self.cmd(b'APPEND INBOX {%d}\r\n' % len(d) + d)
+
+    async def cleanup(self, box: bytes | None) -> None:
+        if box is not None:
+            await self.cmd(b'SELECT ' + box)
+        await self.cmd(b'STORE 1:* +FLAGS.SILENT (\\Deleted)')
+        await self.cmd(b'EXPUNGE')
+
+
+def lit(v):
+    """literal/quoted payload of a FETCH item, None for NIL / not a string"""
+    if isinstance(v, tuple) and v[0] == 'lit':
+        return v[1]
+    if isinstance(v, bytes):
+        return v
+    return None
+
+
+def check_items(ctx, d: bytes, items, partials, rep, where: str, backend: str,
+                expect_loaded: bytes | None) -> bytes | None:
+    """Byte-exact monitor on the data items of one message (the original,
+    its COPY or its MOVE).  Returns the bytes BODY[] delivered."""
+    def fail(clause, what, kind, **more):
+        obs = {'kind': kind, 'where': where, 'backend': backend, 'level': 'imap'}
+        ctx.failure(clause, f'[{backend}/{where}] {what}', dict(rep, where=where, **more), obs)
+
+    full = lit(items.get(b'BODY[]'))
+    if full is None:
+        fail('body_verbatim', 'no BODY[] literal in the response', 'missing')
+        return None
+    eff = d
+    if full != d:
+        if expect_loaded is not None and expect_loaded != d:
+            # stdlib mailbox does not give d back: hypothesis [ser d = d] is false here
+            kind = 'maildir_reserialised' if full == expect_loaded else 'maildir_other'
+            fail('maildir_verbatim', f'BODY[] returns {len(full)} octets for a {len(d)}-octet '
+                 f'literal (stdlib mailbox round trip gives {len(expect_loaded)})', kind)
+            eff = full
+        else:
+            clause = 'body_verbatim' if where == 'append' else 'copy_verbatim'
+            fail(clause, f'BODY[] returns {len(full)} octets != literal ({len(d)} octets)',
+                 'content_not_verbatim')
+            eff = full
+    r822 = lit(items.get(b'RFC822'))
+    if r822 != full:
+        fail('body_verbatim', 'RFC822 differs from BODY[]', 'rfc822_differs')
+    size = items.get(b'RFC822.SIZE')
+    if not (isinstance(size, tuple) and size[0] == 'atom' and size[1].isdigit()
+            and int(size[1]) == len(eff)):
+        fail('rfc822_size', f'RFC822.SIZE {size!r} for {len(eff)} octets', 'size_wrong')
+    hdr, txt = lit(items.get(b'BODY[HEADER]')), lit(items.get(b'BODY[TEXT]'))
+    if hdr is None or txt is None or hdr + txt != eff:
+        fail('header_text_split', f'BODY[HEADER] ({hdr and len(hdr)}) ++ BODY[TEXT] '
+             f'({txt and len(txt)}) differs from the message ({len(eff)})', 'split_wrong')
+    if lit(items.get(b'RFC822.HEADER')) != hdr or lit(items.get(b'RFC822.TEXT')) != txt:
+        fail('header_text_split', 'RFC822.HEADER / RFC822.TEXT differ from BODY[HEADER] / '
+             'BODY[TEXT]', 'rfc822_split_differs')
+    for o, n in partials:
+        got = lit(items.get(b'BODY[]<%d>' % o))
+        if got != eff[o:o + n]:
+            fail('partial_slice', f'BODY[]<{o}.{n}> returned {got and len(got)} octets, expected '
+                 f'{len(eff[o:o + n])}', 'partial_wrong', partial=[o, n])
+    return eff
